@@ -61,6 +61,9 @@ class LazyContourList(object):
                 except BaseException as e:
                     e.args = (f"Event {idx}, {e.args[0]}",)
                     raise
+                # The cached contour is handed out to the user. Make it
+                # read-only, so that it cannot be altered by accident.
+                cont.setflags(write=False)
             else:
                 # Get the contour from deque
                 cont = self.contours[idx_q]
